@@ -27,7 +27,7 @@ if sw:
           'first until one exits non-zero).  Not part of any registered command.', '',
           '%d mutants: %d do not compile, %d killed, %d survived.  First killing check: %s.' % (n, nob, n - nob - len(surv), len(surv), ', '.join('%s %d' % kv for kv in sorted(kills.items()))), '']
     if surv:
-        L.append('Survivors (each inspected):')
+        L.append('Survivors (each inspected; all are equivalent with respect to the properties: `kOrderHint <= 8` vs `< 8` switches a fixed order of exactly 8 to the dynamic table with the same entries; statements that are dead for num_coeffs == 0; `DIM <= 3` vs `DIM < 3` moves DIM 3 to the generic branch that computes the same values; `t <= front` vs `t < front` both return piece 0; `n_inner > 0` vs `>= 0` adds a zero-row block; `+=` vs `=` into a buffer zeroed just before; the default energy weight, which no property specifies.  `ConstIterator::operator-` with `+` survived at first because only `end() - begin()` was exercised: iterator operators are now covered in C03):')
         L.append('')
         seen = set()
         for r in surv:
